@@ -38,6 +38,20 @@ def default_workers():
         return min(NCPU, 16)
 
 
+def max_shards():
+    """Upper bound on parallel engine processes: VERIF_MAX_SHARDS, else /verif/.work/max_shards (local throttle), else all cores."""
+    v = os.environ.get("VERIF_MAX_SHARDS")
+    if not v:
+        try:
+            v = open(os.path.join(VERIF, ".work", "max_shards")).read().strip()
+        except Exception:
+            v = ""
+    try:
+        return max(1, int(v))
+    except Exception:
+        return NCPU
+
+
 def default_heap():
     """JVM heap for exhaustive TLC runs: VERIF_TLC_HEAP, else /verif/.work/tlc_heap (local throttle), else 8g."""
     v = os.environ.get("VERIF_TLC_HEAP")
@@ -292,7 +306,7 @@ class Ctx:
         The engine writes one JSON result per case: {"n":i,"ok":bool,...}. Returns the list of results
         ordered by n. A crashed/timeouted engine is Inconclusive unless it reported a violation for the case."""
         shards = shards or min(NCPU, max(1, len(cases) // 4))
-        shards = max(1, min(shards, len(cases)))
+        shards = max(1, min(shards, len(cases), max_shards()))
         for i, c in enumerate(cases):
             c["n"] = i
         procs = []
